@@ -4,7 +4,7 @@ emit('C10', '''C10 — Forwarding isolation: no relaying, exact once-only delive
    every selected peer and to no other node) quantifies over networks of nodes; it is decided by the
    executed correspondence on 2-5 node meshes with a conservation oracle (py/props/c10.py).  The
    per-node theorems below are the facts that oracle rests on.''',
- ['Base','Nonce','Replay','Core','CoreProofs','Conn','PeerCrypto','SealProofs','Table','Node','NodeProofs','TrustProofs','EndToEndProofs'],
+ ['Base','Nonce','Replay','Core','CoreProofs','Conn','PeerCrypto','SealProofs','Table','Node','NodeProofs','TrustProofs','EndToEndProofs','NextHopProofs','TickPeersProofs','FloodProofs'],
  [('unicast_end_to_end','EndToEndProofs.v','unicast_end_to_end','END TO END (two nodes): a frame read from the interface of node A whose destination resolves to peer B causes exactly one datagram, to B, and that datagram makes B write exactly that frame to its interface and nothing else, whenever the two connection objects are in sync (B holds A\'s sealing key under its id, nonce reconstructible, window admits: the C07/C04/C03 invariants)'),
   ('iface_only_sends','NodeProofs.v','iface_read_effects','an interface read only ever causes datagrams to peers, never an interface write'),
   ('send_to_peers_only','NodeProofs.v','send_data_effects','and a datagram goes to an address only if it is an established peer'),
@@ -12,4 +12,8 @@ emit('C10', '''C10 — Forwarding isolation: no relaying, exact once-only delive
   ('unknown_dest_router','NodeProofs.v','iface_unknown_router_drops','router mode, unknown destination: dropped and counted'),
   ('non_peer_nothing','NodeProofs.v','unverifiable_no_residue','datagrams from non-peers (nothing verifiable) never reach the interface'),
   ('byte_identical','SealProofs.v','pc_roundtrip','what is delivered is byte-identical to what was sealed'),
- ])
+  ('flood_exact','FloodProofs.v','broadcast_exact','a flood (broadcast) emits, for the peers in map order, exactly the datagram each peer\'s connection object seals - nothing else, nobody twice, nobody skipped (peer map without duplicate addresses)'),
+  ('reachable_flood_every_peer_once','FloodProofs.v','reachable_flood_every_peer_once','in EVERY reachable node state (any events, any times, any salts) a frame whose destination the table does not know is, in a flooding mode, sent to every peer exactly once: the peer map never lists an address twice (TickPeersProofs.reachable_nd) and every peer\'s connection object can seal (FloodProofs.reachable_se)'),
+ ], tail='''(* non-vacuity: the reachable example state of NextHopProofs floods to its one peer *)
+Example C10_ex_flood : map dst_of (snd (broadcast ex_b MESSAGE_TYPE_DATA [1;2;3])) = [Some 1001].
+Proof. exact ex_flood. Qed.''')
